@@ -211,7 +211,7 @@ def canonical_local_names(tree, rel: str) -> int:
     return n
 
 
-SMALL_EDIT_LINES = 4
+SMALL_EDIT_LINES = 6
 
 _IDIOM_TOKENS = {
     # tokens that come and go with idiom changes and carry no behaviour of their own
